@@ -183,8 +183,8 @@ class ListeningConnection(Connection):
             incoming=True
         )
         connection._reader, connection._writer = reader, writer
-        await self.network.on_peer_accepted(connection)
         await connection.set_state(ConnectionState.CONNECTED)
+        await self.network.on_peer_accepted(connection)
 
 
 class DataConnection(Connection, abc.ABC):
